@@ -15,7 +15,8 @@
 // what reaches reply(const char*) / broadcast(const char*).
 //
 //   case:   sugar <kind> <depth> <name> <N> <mintext|-> <maxtext|-> <opts|-> <init> <ops> ...
-//     kind   P F I O T S1 S5 S16 AI AF AO AT PS    depth 0|1
+//     kind   P F I O OE T S1 S5 S16 AI AF AO AT PA PS    depth 0|1
+//            (OE: rOption on a scoped-enum field; PA / PS: the two ports of rParams)
 //     opts   k=sym,k=sym,...      init  v,v,... (16 for arrays; hex buffer for S*)
 //     ops    q[<idx>] | s[<idx>]=<t><v>  separated by ';'
 //            t/v: i<dec> c<dec> f<hex8> S<hexsym> s<hexstr> T F
@@ -35,6 +36,7 @@ struct RunPorts : Ports {
 };
 
 enum { BACK = 16 };
+enum class Mode : int { first = 0 };   // an option backed by a scoped enum (rOptionCb_'s static_casts)
 struct Obj {
     static RunPorts ports;
     uint32_t guard0;
@@ -61,13 +63,15 @@ struct Obj {
     uint32_t guard9;
     char  ps[BACK];
     uint32_t guard10;
+    Mode  pe;
+    uint32_t guard11;
 };
 RunPorts Obj::ports;
 static const uint32_t GUARD = 0xa5c3e197u;
 static uint32_t *guards(Obj &o, int i)
 {
     uint32_t *g[] = {&o.guard0, &o.guard1, &o.guard2, &o.guard3, &o.guard4, &o.guard5,
-                     &o.guard6, &o.guard7, &o.guard8, &o.guard9, &o.guard10};
+                     &o.guard6, &o.guard7, &o.guard8, &o.guard9, &o.guard10, &o.guard11};
     return g[i];
 }
 
@@ -86,6 +90,7 @@ static const Ports tmpl = {
     rArrayOption(ao, 16, "d"),
     rArrayT(at, 16, "d"),
     rParams(ps, 16, "d"),
+    rOption(pe, "d"),
 };
 #undef rObject
 
@@ -140,9 +145,9 @@ int main()
         int depth = atoi(f[2].c_str());
         const std::string &name = f[3];
         int N = atoi(f[4].c_str());
-        static const char *kinds[] = {"P", "F", "I", "O", "T", "S1", "S5", "S16", "AI", "AF", "AO", "AT", "PA", "PS"};
+        static const char *kinds[] = {"P", "F", "I", "O", "T", "S1", "S5", "S16", "AI", "AF", "AO", "AT", "PA", "PS", "OE"};
         int k = -1;
-        for(int i = 0; i < 14; ++i) if(kind == kinds[i]) k = i;
+        for(int i = 0; i < 15; ++i) if(kind == kinds[i]) k = i;
         if(k < 0) { puts("BADCASE"); continue; }
         // PA = the array half of rParams (same callback as rArrayI), PS = its alias half
         const Port &tp = tmpl.ports[k];
@@ -172,7 +177,7 @@ int main()
         Top t;
         Obj &o = t.sub;
         memset(&o, 0, sizeof(o));
-        for(int i = 0; i <= 10; ++i) *guards(o, i) = GUARD;
+        for(int i = 0; i <= 11; ++i) *guards(o, i) = GUARD;
         // initial state
         auto iv = split(f[8], ',');
         auto geti = [&](int i) { return i < (int)iv.size() ? atoi(iv[i].c_str()) : 0; };
@@ -192,6 +197,7 @@ int main()
             case 10: for(int i = 0; i < BACK; ++i) o.ao[i] = geti(i); break;
             case 11: for(int i = 0; i < BACK; ++i) o.at[i] = geti(i) != 0; break;
             case 12: case 13: for(int i = 0; i < BACK; ++i) o.ps[i] = (char)geti(i); break;
+            case 14: o.pe = (Mode)geti(0); break;
         }
 
         std::ostringstream out;
@@ -248,8 +254,9 @@ int main()
             case 10: for(int i = 0; i < BACK; ++i) out << (i ? "," : "") << o.ao[i]; break;
             case 11: for(int i = 0; i < BACK; ++i) out << (i ? "," : "") << (int)o.at[i]; break;
             case 12: case 13: for(int i = 0; i < BACK; ++i) out << (i ? "," : "") << (int)o.ps[i]; break;
+            case 14: out << (int)o.pe; break;
         }
-        for(int i = 0; i <= 10; ++i) if(*guards(o, i) != GUARD) out << " GUARD" << i;
+        for(int i = 0; i <= 11; ++i) if(*guards(o, i) != GUARD) out << " GUARD" << i;
         // every field the case's port does not own must still be zero
         {
             Obj z; memset(&z, 0, sizeof(z));
@@ -267,6 +274,7 @@ int main()
             if(k != 10 && memcmp(o.ao, z.ao, sizeof(o.ao))) other = true;
             if(k != 11 && memcmp(o.at, z.at, sizeof(o.at))) other = true;
             if(k != 12 && k != 13 && memcmp(o.ps, z.ps, sizeof(o.ps))) other = true;
+            if(k != 14 && (int)o.pe) other = true;
             if(other) out << " OTHERFIELD";
         }
         puts(out.str().c_str());
